@@ -130,18 +130,18 @@ func checkImplementation(
 			// For &Interface, we need pointer receiver methods
 			// (but value receiver methods are also OK per Go spec:
 			// method set of *T includes methods with receiver T or *T)
-			typeMethods[method.Name] = method
+			typeMethods[methodKey(method.Name, method.id)] = method
 		} else {
 			// For Interface (no &), we need value receiver methods only
 			if !method.ReceiverIsPointer {
-				typeMethods[method.Name] = method
+				typeMethods[methodKey(method.Name, method.id)] = method
 			}
 		}
 	}
 
 	// Check each interface method
 	for _, ifaceMethod := range iface.Methods {
-		typeMethod, exists := typeMethods[ifaceMethod.Name]
+		typeMethod, exists := typeMethods[methodKey(ifaceMethod.Name, ifaceMethod.id)]
 		if !exists {
 			missing = append(missing, ifaceMethod)
 			continue
@@ -154,6 +154,15 @@ func checkImplementation(
 	}
 
 	return missing
+}
+
+// methodKey identifies a method the way Go does: by its name and, if the name is not exported,
+// the package that declares it (models built by hand only have the name)
+func methodKey(name, id string) string {
+	if id != "" {
+		return id
+	}
+	return name
 }
 
 // signaturesMatch checks if type method matches interface method signature
